@@ -28,7 +28,7 @@ func runOfficeCase(c *fw.Ctx, i int) {
 	r := c.Rand("office", i)
 	format := []string{"docx", "odt"}[i%2]
 	how := map[string]string{"docx": "builtin", "odt": "h"}[format]
-	prof := logical.Profile{MinBlocks: 4, MaxBlocks: 14, HeadingHows: []string{how}, MaxHeadingLevel: 6,
+	prof := logical.Profile{MinBlocks: 4, MaxBlocks: 14, HeadingHows: []string{how}, MaxHeadingLevel: []int{6, 6, 9}[i/2%3],
 		Lists: true, ListMaxDepth: 2, Tables: i%3 == 0, MaxRows: 4, MaxCols: 3, Styles: 1,
 		BlockBias: []string{"", "headings", "headings", "lists"}[r.Intn(4)]}
 	d := logical.Gen(r, fw.NewTokens(r), prof)
